@@ -41,6 +41,19 @@ impl Params {
     }
 }
 
+/// Parameter `claim=N` attributes every violation of the run to property `C<N>` (used when a
+/// property's statement includes the others, e.g. C05: "the reference they return obeys C01/C02").
+pub fn claim_of(p: &Params) -> Option<&'static str> {
+    const IDS: [&str; 21] = [
+        "", "C01", "C02", "C03", "C04", "C05", "C06", "C07", "C08", "C09", "C10", "C11", "C12",
+        "C13", "C14", "C15", "C16", "C17", "C18", "C19", "C20",
+    ];
+    match p.get("claim", 0) {
+        n if (1..=20).contains(&n) => Some(IDS[n as usize]),
+        _ => None,
+    }
+}
+
 pub struct Program {
     /// classes of yield points that are scheduling points in the concurrent phase
     pub classes: u8,
@@ -60,6 +73,9 @@ pub struct Program {
     /// custom end-of-execution check (histories etc.); runs on the controller, must not call circ
     pub finish: Option<Box<dyn FnOnce(&mut Monitor)>>,
     pub state_points: bool,
+    /// attribute every violation found in this program to this property (the scenario exists
+    /// to decide it); the original classification stays in the detail text
+    pub claim: Option<&'static str>,
 }
 
 impl Default for Program {
@@ -78,6 +94,7 @@ impl Default for Program {
             check_quiescent: true,
             finish: None,
             state_points: true,
+            claim: None,
         }
     }
 }
@@ -127,6 +144,7 @@ pub fn run_one(prog: Program, prefix: &[u8], trace: bool) -> ExecResult {
     let mut m = Monitor::new(trace);
     m.quarantine_on = prog.quarantine;
     m.check_state_points = prog.state_points;
+    m.claim = prog.claim;
     monitor::install(m);
 
     let collector = cv::ebr::Collector::new();
